@@ -9,7 +9,10 @@ garbage, flips: harness/props/c07.py) a document can be damaged in its STRUCTURE
     retype    the value is of another type -- for every other JSON type an empty and a non-empty representative
               (0, 7, false, true, "", "x", [], [1], {}, {"a": 1})
     empty     a list / object / string emptied IN PLACE (same type): a well-formed document that says something else
-              -- recorded, never judged (a manifest list with zero records is what an empty snapshot looks like)
+              -- recorded, not judged by itself (a manifest list with zero records is what an empty snapshot looks like);
+              judged when the document contradicts ITSELF afterwards (the check's `dangling_current`: a metadata file
+              whose current_snapshot_id names none of the snapshots it still lists)
+    drop-item an element of an array is gone (first / last): likewise
     zero-records   (Avro) the container holds no records: likewise
 
 at EVERY key path of the document (first and last element of every array).  The operations are independent of what any
@@ -80,6 +83,8 @@ def json_ops(doc: Any, full: bool, rng: random.Random) -> List[Dict[str, Any]]:
         p = list(path)
         if isinstance(path[-1], str):
             ops.append({"op": "drop", "path": p})
+        else:
+            ops.append({"op": "drop-item", "path": p})
         if v is not None:
             ops.append({"op": "null", "path": p})
         reps = [(t, r) for t, r in REPS if t != jtype(v)]
@@ -98,7 +103,7 @@ def apply_json_op(doc: Any, op: Dict[str, Any]) -> Any:
     for k in op["path"][:-1]:
         cur = cur[k]
     k = op["path"][-1]
-    if op["op"] == "drop":
+    if op["op"] in ("drop", "drop-item"):
         del cur[k]
     elif op["op"] == "null":
         cur[k] = None
@@ -111,8 +116,21 @@ def apply_json_op(doc: Any, op: Dict[str, Any]) -> Any:
     return d
 
 
+def dangling_current(doc: Any) -> bool:
+    """A table-metadata document that contradicts itself: its current_snapshot_id is set (not null, not -1 = "no snapshot
+    yet") and is the snapshot_id of none of the snapshots it lists.  Independent of datashard."""
+    if not isinstance(doc, dict) or "current_snapshot_id" not in doc or not isinstance(doc.get("snapshots"), list):
+        return False
+    cur = doc["current_snapshot_id"]
+    if cur is None or cur == -1:
+        return False
+    return not any(isinstance(sn, dict) and "snapshot_id" in sn and sn["snapshot_id"] == cur for sn in doc["snapshots"])
+
+
 def op_label(op: Dict[str, Any]) -> str:
     lab = op["op"]
+    if lab == "drop-item":
+        lab += ":first" if op["path"][-1] == 0 else ":last"
     if lab == "retype":
         v = op["value"]
         lab += "-to-" + (("empty-" if v in ("", [], {}) else "") + jtype(v) + (f"-{json.dumps(v)}" if jtype(v) in ("num", "bool") else ""))
